@@ -34,6 +34,8 @@ if req['mode'] == 'classify':
                 row[how] = ['err', type(e).__name__]
         # the same document stored in other encodings (with the matching XML declaration), as bytes and as a file
         for enc in ('utf-16', 'iso-8859-1'):
+            if '<?xml' in text or text.startswith('\ufeff'):
+                continue                                 # the text has its own declaration
             try:
                 data = ('<?xml version="1.0" encoding="%s"?>' % enc + text).encode(enc)
             except UnicodeEncodeError:
